@@ -4,6 +4,7 @@ package modules
 
 import (
 	"context"
+	"errors"
 	"sync/atomic"
 	"time"
 
@@ -222,6 +223,83 @@ func VerifC05_StopRace() {
 	rt.Assert(m.Status() == StatusOffline, "stoprace/offline-at-report")
 	rt.Assert(rep.err == nil, "stoprace/no-error")
 	rt.Reach("stoprace-end")
+}
+
+// ---- work that got the module's context before the start that brought the
+// module online (launched from the prep routine, or by a first start attempt
+// that failed): its context is cancelled no later than when the stop routine
+// is invoked, and the stop does not hang on it ----
+
+func VerifC05_WorkLaunchedBeforeStart() {
+	rt.NoTimers()
+	rt.SchedYieldOnly(true)
+	SetStdErrReporting(false)
+	c05Reset()
+	moduleStopTimeout = time.Hour
+	var m *Module
+	var workCtx context.Context
+	launched, returned := false, false
+	kind := rt.Choice("kind", 3)
+	launch := func() {
+		launched = true
+		body := func(ctx context.Context) error {
+			workCtx = ctx
+			<-ctx.Done()
+			returned = true
+			return nil
+		}
+		switch kind {
+		case 0:
+			m.StartWorker("w", body)
+		case 1:
+			m.StartServiceWorker("sw", 0, body)
+		case 2:
+			m.StartHighPriorityMicroTask("mt", body)
+		}
+	}
+	fromPrep := rt.Bool("from-prep")
+	startCalls := 0
+	prepFn := func() error {
+		if fromPrep {
+			launch()
+		}
+		return nil
+	}
+	startFn := func() error {
+		startCalls++
+		if !fromPrep && startCalls == 1 {
+			launch()
+			return errors.New("first start attempt fails")
+		}
+		return nil
+	}
+	stopFn := func() error {
+		rt.Assert(workCtx == nil || workCtx.Err() != nil, "prestart/context-cancelled-when-the-stop-routine-runs")
+		return nil
+	}
+	m = initNewModule("m", prepFn, startFn, stopFn)
+	m.status = StatusDead
+	reports := make(chan *report, 4)
+	m.prep(reports)
+	rt.Assert((<-reports).err == nil, "prestart/prep-ok")
+	rt.Yield() // work launched from the prep routine may begin now
+	m.start(reports)
+	rep := <-reports
+	if !fromPrep {
+		rt.Assert(rep.err != nil, "prestart/first-start-fails")
+		rt.Yield() // work launched by the failed attempt may begin now
+		m.start(reports) // the retry (as a later management pass would do)
+		rep = <-reports
+	}
+	rt.Assert(rep.err == nil, "prestart/start-ok")
+	rt.Assert(launched, "prestart/work-launched")
+	rt.Yield()
+	m.stop(reports)
+	rep = <-reports // a stop that waits for work whose context was never cancelled hangs here
+	rt.Assert(rep.err == nil, "prestart/stop-ok")
+	rt.Assert(workCtx == nil || returned, "prestart/work-returned-before-the-stop-report")
+	rt.Assert(m.Status() == StatusOffline, "prestart/offline")
+	rt.Reach("prestart-end")
 }
 
 // the dependency keeps waiting while the dependent is stopping
